@@ -16,10 +16,13 @@ import vlib
 import sessionlife
 
 PID = "X-SESSIONLIFE"
-WITNESSES = ["W_NoRedial", "W_NoIdleCut", "W_NoInitTwice", "W_NoBothEst", "W_NoReEst", "W_NoCutThenReEst", "W_NoRefuse", "W_NoSkip"]
-QUICK = [("SessionLife_quick_dial.cfg", 3, 600), ("SessionLife_quick_listen.cfg", 3, 600)]
-FULL = [("SessionLife_full_dial.cfg", 4, 1500), ("SessionLife_full_listen.cfg", 4, 1500), ("SessionLife_full_pair.cfg", 4, 1500),
-        ("SessionLife_live.cfg", 4, 2400), ("SessionLife_live_stop.cfg", 3, 2400)]
+WITNESSES_QUICK = ["W_NoRedial", "W_NoIdleCut", "W_NoInitTwice", "W_NoBothEst"]
+WITNESSES_MORE = ["W_NoReEst", "W_NoCutThenReEst", "W_NoRefuse", "W_NoSkip"]
+QUICK = [("SessionLife_quick_dial.cfg", 3, 900), ("SessionLife_quick_listen.cfg", 3, 900)]
+FULL = [("SessionLife_live.cfg", 3, 2400), ("SessionLife_live_stop.cfg", 3, 2400), ("SessionLife_full_pair.cfg", 3, 2400),
+        ("SessionLife_full_dial_two.cfg", 3, 2400), ("SessionLife_full_dial_shut.cfg", 3, 2400), ("SessionLife_full_dial_cancel.cfg", 3, 2400), ("SessionLife_full_dial_silent.cfg", 3, 2400),
+        ("SessionLife_full_dial_adv3.cfg", 3, 2400), ("SessionLife_full_listen_cancel.cfg", 3, 2400), ("SessionLife_full_listen_shut.cfg", 3, 2400),
+        ("SessionLife_full_listen_adv5.cfg", 3, 2400)]
 EXPECTED = [("SessionLife_race.cfg", "EstHasEdge")]
 EXPECTED_THOROUGH = [("SessionLife_asis.cfg", "NoOrphan")]
 
@@ -35,6 +38,10 @@ def _expected(cfg, inv, wd):
     return cfg, inv, r
 
 
+def _wit(name, wd):
+    return vlib.witnesses("SessionLife", "SessionLife_wit.cfg", [name], wd, workers=1, timeout=900)[0]
+
+
 def run(tier, seed, replay=None):
     wd = vlib.workdir("X_SessionLife")
     v = vlib.Verdict(PID, tier, seed)
@@ -44,17 +51,19 @@ def run(tier, seed, replay=None):
     cfgs = QUICK if tier == "quick" else QUICK + FULL
     exp = EXPECTED if tier == "quick" else EXPECTED + EXPECTED_THOROUGH
     skip_design = os.environ.get("XSL_SKIP_DESIGN") == "1"    # binding self-tests (mutations of /repo) do not re-check the design
+    wnames = WITNESSES_QUICK if tier == "quick" else WITNESSES_QUICK + WITNESSES_MORE
     if skip_design:
-        cfgs, exp = [], []
-    with cf.ThreadPoolExecutor(max_workers=3 if tier == "quick" else 2) as ex:
-        fh = ex.submit(vlib.harness_json, vsl, ["-scenarios", str(n), "-par", "12" if tier == "quick" else "18", "-seed", str(seed), "-hooktrace", hooks],
+        cfgs, exp, wnames = [], [], []
+    with cf.ThreadPoolExecutor(max_workers=4) as ex:
+        fh = ex.submit(vlib.harness_json, vsl, ["-scenarios", str(n), "-par", "13" if tier == "quick" else "18", "-seed", str(seed), "-hooktrace", hooks],
                        wd, 3000, None, "vsl")
         ft = [ex.submit(_tlc, c, w, t, wd) for c, w, t in cfgs]
         fe = [ex.submit(_expected, c, i, wd) for c, i in exp]
+        fw = [ex.submit(_wit, w, wd) for w in wnames]
         res = fh.result()
         design = [f.result() for f in ft]
         leads = [f.result() for f in fe]
-    wit = [] if skip_design else vlib.witnesses("SessionLife", "SessionLife_wit.cfg", WITNESSES, wd, workers=2, timeout=600)
+        wit = [f.result() for f in fw]
     for viol in res["violations"]:
         v.violation(viol["sig"], viol["what"], viol["replay"])
     # the traces of scenarios that hit a ceiling are valid prefixes: a definite wrong value in them is still one
